@@ -1111,3 +1111,25 @@ Definition run_C02_disp (fmt : option str) (ext : str) (rfmt : str) (sepo : opti
           VL [VB (known && wclean && same); VB false; VL [VS t; read_fts_m rfmt sepo t]]
       end
   end.
+
+(* ------------------------------------------------------------------ tables inside streams
+   main.py:52-82 (detect remembers the position of the stream it is given and returns to it after every sniffer) and
+   main.py:364-394 (read_fts reads from the position the stream has): a stream is what it holds and the position of the
+   next read. f.seek(p) with p = the offset tell() gave after the earlier content was written, and f.readline() called n
+   times, move the position; reading - with fmt given or detected - sees exactly what lies behind it. *)
+Inductive spos := PSeek (n : nat) | PLines (n : nat).
+(* f.readline(): up to and including the next line feed *)
+Fixpoint stream_readline (c : str) : str :=
+  match c with
+  | [] => []
+  | b :: r => if byte_eqb b x0a then r else stream_readline r
+  end.
+Definition stream_rest (p : spos) (content : str) : str :=
+  match p with
+  | PSeek n => skipn n content
+  | PLines n => Nat.iter n stream_readline content
+  end.
+(* GFF text / a foreign table read from the current position of the stream that holds it *)
+Definition run_C02_text_at (p : spos) (content : str) : val := run_C02_text (stream_rest p content).
+Definition run_C02_xsvr_at (sep : byte) (ft : option str) (p : spos) (content : str) : val :=
+  run_C02_xsvr sep ft (stream_rest p content).
